@@ -1,10 +1,11 @@
 #!/usr/bin/env python3
-"""usage: confirm_seed.py <ID> <A|B>
+"""usage: confirm_seed.py <ID> <A|B> [<stored suffix>]
 Confirms a seeded change in its scratch worktree /tmp/seed/wt-<ID>: patch applies, builds,
 stable suite passes with it, the demo fails with it and passes without it. On success the
 change is stored as /verif/seeded/<ID>-<X>/ (patch.diff, demo_test.go, meta.json)."""
 import json, os, shutil, subprocess, sys
 pid, x = sys.argv[1], sys.argv[2]
+store_as = sys.argv[3] if len(sys.argv) > 3 else x  # round 2 stores A/B of a new worktree as C/D
 wt = "/tmp/seed/wt-" + pid
 sd = os.path.join(wt, "_seed", x)
 meta = json.load(open(os.path.join(sd, "meta.json")))
@@ -54,7 +55,7 @@ good = all(res.get(k) for k in ("demo_unpatched_pass", "applies", "builds", "dem
 res["confirmed"] = good
 print(json.dumps(res, indent=1))
 if good:
-    out = "/verif/seeded/%s-%s" % (pid, x)
+    out = "/verif/seeded/%s-%s" % (pid, store_as)
     os.makedirs(out, exist_ok=True)
     shutil.copy(os.path.join(sd, "patch.diff"), out)
     shutil.copy(os.path.join(sd, "demo_test.go"), out)
